@@ -17,6 +17,7 @@ from gv.cfg import cfg_of
 from gv.props import describe
 from gv.props.shared import branch_conditions
 from gv.props.shared import unfolded
+from gv.props.shared import literal_facts
 from gv.report import Ctx
 from gv.report import cname
 
@@ -131,6 +132,13 @@ def check_seeds(ctx: Ctx) -> None:
             alts = (unfolded(f, seed_expr) or [seed_expr]) if isinstance(seed_expr, ast.AST) else [seed_expr]
             ok = all(isinstance(a_, ast.Call) and norm_stmt(a_.func) == "self._seeder.get_seed" and len(a_.args) == 1 and not a_.keywords for a_ in alts)
             ctx.ob("14.1-seeded", con, ok, f"`{norm_stmt(c, 60)}` creates a random source that is not seeded with self._seeder.get_seed(<user seed>): two runs with the same settings and seed differ, or the user's seed is ignored", node=c)
+            if name == "SetSeed":
+                # a GLOBAL generator: it is re-seeded at every generation, whatever the algorithm (a list of "random"
+                # algorithms is one omission away from an unseeded design; the state left by other users of the library
+                # would otherwise decide the samples)
+                fcfg = cfg_of(f)
+                conds = literal_facts(fcfg, fcfg.node_of(c)) if fcfg.has(c) else {"?": True}
+                ctx.ob("14.1-seeded", con, not conds, f"the global OpenTURNS generator must be seeded on every path to the generation; here only under `{' and '.join(conds)}`", node=c, stmt="SetSeed is unconditional")
             if ok:
                 # the argument is the user's setting (a subscript of settings / a parameter named seed)
                 args = [a_.args[0] for a_ in alts]
